@@ -323,9 +323,9 @@ def gen_candidates(rng, entry, X, y):
     return mode, rows
 
 
-def run_query(entry, X, y, classes, seed, cand, bs, return_utilities=True):
+def run_query(entry, X, y, classes, seed, cand, bs, return_utilities=True, **extra):
     qs = entry.make(classes, seed)
-    kw = entry.kw(classes, seed)
+    kw = dict(entry.kw(classes, seed), **extra)
     with warnings.catch_warnings():
         warnings.simplefilter("ignore")
         return qs.query(X=X, y=y, candidates=cand, batch_size=bs, return_utilities=return_utilities, **kw), qs
